@@ -135,7 +135,8 @@ impl AttrStore {
             if disable_next && !matches!(child_kind, SyntaxKind::Space | SyntaxKind::Hash) {
                 self.set_format_disabled(child);
                 disable_next = false;
-                continue;
+                // Still visit the child: it is formatted when it is not an expression,
+                // and then the directives inside it must work.
             }
             self.compute_no_format_impl(child);
         }
